@@ -89,6 +89,14 @@ def fitsType (t : Ty) (nb : IR) : Bool :=
   | some ⟨some tlo, some thi⟩, some lo, some hi => !(lo < tlo || hi > thi)
   | _, _, _ => false
 
+/-- `bcheckAssignment1(nil, typ, =, e)`: the value of `e` must fit the (refined) type
+`typ` — how `bcheckStatement` checks a `return e` against the function's out type and
+`bcheckExprCall` each argument against its parameter's type -/
+def checkFits (fs : List Expr) (t : Ty) (e : Expr) : Bool :=
+  match bcheck fs false e with
+  | some b => fitsType t b
+  | none => false
+
 /-- the rewriting of one fact by `x += e` / `x -= e` (`facts.update` in
 `bcheckAssignment`); `none` = the fact is dropped -/
 def rewriteFact (op : BOp) (lhs rhs : Expr) (x : Expr) : Option Expr :=
